@@ -1,0 +1,562 @@
+//go:build verif
+
+package commonmark
+
+// Bounded stand-in for the tree-level postcondition of Parse that the deductive
+// verifier under /verif (govc) cannot reach: the tree surgery of the block and
+// inline phases is abstracted in the contracts, so the node invariant of a
+// finished tree (C01, C02, C03, C05, C13) is a named assumption there.  This
+// test evaluates that postcondition, written out below from the property
+// statements, on the real Parse for every input up to a stated bound.  It is
+// compiled only with the build tag "verif" and run by "govc check"; a failure
+// is a counterexample input, never a proof of anything.
+//
+// Environment: VERIF_STANDIN_CLAUSES (comma-separated property ids, default
+// all), VERIF_STANDIN_LEVEL (quick|thorough), VERIF_SEED.  Output: one JSON
+// line per violated clause (first input found) and a summary line.
+
+import (
+	"bytes"
+	"encoding/json"
+	"fmt"
+	"math/rand"
+	"os"
+	"runtime"
+	"sort"
+	"strconv"
+	"strings"
+	"sync"
+	"testing"
+	"unicode/utf8"
+)
+
+type standinViolation struct {
+	Clause string `json:"clause"`
+	Input  string `json:"input"`
+	Detail string `json:"detail"`
+}
+
+type standinChecker struct {
+	want map[string]bool
+	out  []standinViolation
+	in   []byte
+}
+
+func (c *standinChecker) fail(clause, format string, args ...any) {
+	if !c.want[clause[:3]] {
+		return
+	}
+	c.out = append(c.out, standinViolation{Clause: clause, Input: string(c.in), Detail: fmt.Sprintf(format, args...)})
+}
+
+func standinBlank(b byte) bool { return b == ' ' || b == '\t' || b == '\r' || b == '\n' }
+
+// checkDocument evaluates the postcondition on one input.
+func (c *standinChecker) checkDocument(input []byte) {
+	c.in = input
+	before := append([]byte(nil), input...)
+	blocks, refs := Parse(input)
+	if !bytes.Equal(before, input) {
+		c.fail("C01/unmodified", "Parse wrote to the caller's buffer")
+	}
+	hasNUL := bytes.IndexByte(input, 0) >= 0
+	// C01: root blocks tile the input
+	var prevEnd int64
+	for i, root := range blocks {
+		if root.StartOffset < prevEnd || root.EndOffset < root.StartOffset || root.EndOffset > int64(len(input)) {
+			c.fail("C01/order", "block %d has range [%d,%d) after %d (input length %d)", i, root.StartOffset, root.EndOffset, prevEnd, len(input))
+			return
+		}
+		for _, b := range input[prevEnd:root.StartOffset] {
+			if !standinBlank(b) {
+				c.fail("C01/gap", "byte %q before block %d is outside every block", b, i)
+				break
+			}
+		}
+		want := bytes.ReplaceAll(input[root.StartOffset:root.EndOffset], []byte{0}, []byte("\xef\xbf\xbd"))
+		if !bytes.Equal(want, root.Source) {
+			c.fail("C01/source", "block %d: Source %q is not the input range %q", i, root.Source, want)
+		}
+		line := 1
+		pre := input[:root.StartOffset]
+		for k := 0; k < len(pre); k++ {
+			if pre[k] == '\n' || (pre[k] == '\r' && !(k+1 < len(input) && input[k+1] == '\n')) {
+				line++
+			}
+		}
+		if root.StartLine != line {
+			c.fail("C01/line", "block %d: StartLine %d, want %d", i, root.StartLine, line)
+		}
+		if !hasNUL && len(root.Source) > 0 && (root.StartOffset >= int64(len(input)) || &root.Source[0] != &input[root.StartOffset]) {
+			c.fail("C01/alias", "block %d: Source is not a sub-slice of the input", i)
+		}
+		prevEnd = root.EndOffset
+	}
+	for _, b := range input[prevEnd:] {
+		if !standinBlank(b) {
+			c.fail("C01/gap", "byte %q after the last block is outside every block", b)
+			break
+		}
+	}
+	validUTF8 := utf8.Valid(input)
+	for _, root := range blocks {
+		c.checkRoot(root, refs, validUTF8)
+	}
+}
+
+func standinKindName(n Node) string {
+	if b := n.Block(); b != nil {
+		return b.Kind().String()
+	}
+	if i := n.Inline(); i != nil {
+		return i.Kind().String()
+	}
+	return "nil"
+}
+
+func (c *standinChecker) checkRoot(root *RootBlock, refs ReferenceMap, validUTF8 bool) {
+	src := root.Source
+	sp := root.Span()
+	// C02: root clause
+	if sp.End != len(src) {
+		c.fail("C02/root-end", "root %s span %v does not end at len(Source)=%d", root.Kind(), sp, len(src))
+	}
+	if sp.Start < 0 || sp.Start > len(src) {
+		c.fail("C02/valid", "root span %v", sp)
+		return
+	}
+	for _, b := range src[:sp.Start] {
+		if b != ' ' && b != '\t' {
+			c.fail("C02/root-start", "root %s span %v is preceded by %q", root.Kind(), sp, b)
+			break
+		}
+	}
+	cover := make([]int, len(src))
+	c.checkNode(src, root.AsNode(), Span{Start: 0, End: len(src)}, validUTF8, cover, false, refs)
+	// C03: leaves cover the text exactly once
+	for k, b := range src {
+		if cover[k] > 1 {
+			c.fail("C03/dup", "byte %d (%q) of %q is covered by %d leaves", k, b, src, cover[k])
+			break
+		}
+	}
+	for k, b := range src {
+		textual := b >= 0x80 || ('0' <= b && b <= '9') || ('a' <= b && b <= 'z') || ('A' <= b && b <= 'Z')
+		if textual && cover[k] == 0 {
+			c.fail("C03/lost", "byte %d (%q) of %q is covered by no leaf", k, b, src)
+			break
+		}
+	}
+}
+
+var standinPhrasing = map[InlineKind]bool{
+	TextKind: true, SoftLineBreakKind: true, HardLineBreakKind: true, IndentKind: true, CharacterReferenceKind: true,
+	EmphasisKind: true, StrongKind: true, LinkKind: true, ImageKind: true, CodeSpanKind: true, AutolinkKind: true, HTMLTagKind: true,
+}
+
+func (c *standinChecker) checkNode(src []byte, n Node, parent Span, validUTF8 bool, cover []int, inLink bool, refs ReferenceMap) {
+	sp := n.Span()
+	name := standinKindName(n)
+	if !(0 <= sp.Start && sp.Start <= sp.End && sp.End <= len(src)) {
+		c.fail("C02/valid", "%s has span %v in a source of length %d", name, sp, len(src))
+		return
+	}
+	if sp.Start < parent.Start || sp.End > parent.End {
+		c.fail("C02/nested", "%s span %v is not inside its parent's span %v", name, sp, parent)
+	}
+	if validUTF8 {
+		for _, p := range []int{sp.Start, sp.End} {
+			if p < len(src) && !utf8.RuneStart(src[p]) {
+				c.fail("C02/boundary", "%s span %v has a boundary inside a multi-byte character", name, sp)
+			}
+		}
+	}
+	text := src[sp.Start:sp.End]
+	if n.ChildCount() == 0 {
+		for k := sp.Start; k < sp.End; k++ {
+			cover[k]++
+		}
+	}
+	prevEnd := sp.Start
+	for i := 0; i < n.ChildCount(); i++ {
+		ch := n.Child(i)
+		csp := ch.Span()
+		if csp.Start < prevEnd {
+			c.fail("C02/order", "child %d (%s %v) of %s starts before the end %d of the previous child", i, standinKindName(ch), csp, name, prevEnd)
+		}
+		if csp.End > prevEnd {
+			prevEnd = csp.End
+		}
+	}
+	if b := n.Block(); b != nil {
+		c.checkBlock(src, b, text)
+	}
+	if in := n.Inline(); in != nil {
+		c.checkInline(src, in, text, inLink, refs)
+		if in.Kind() == LinkKind {
+			inLink = true
+		}
+	}
+	for i := 0; i < n.ChildCount(); i++ {
+		c.checkNode(src, n.Child(i), sp, validUTF8, cover, inLink, refs)
+	}
+}
+
+func standinRun(text []byte, ch byte) int {
+	n := 0
+	for n < len(text) && text[n] == ch {
+		n++
+	}
+	return n
+}
+
+func standinRunBack(text []byte, ch byte) int {
+	n := 0
+	for n < len(text) && text[len(text)-1-n] == ch {
+		n++
+	}
+	return n
+}
+
+func standinIsListMarker(text []byte) bool {
+	if len(text) == 1 {
+		return text[0] == '-' || text[0] == '+' || text[0] == '*'
+	}
+	if len(text) < 2 || len(text) > 10 {
+		return false
+	}
+	for _, b := range text[:len(text)-1] {
+		if b < '0' || b > '9' {
+			return false
+		}
+	}
+	return text[len(text)-1] == '.' || text[len(text)-1] == ')'
+}
+
+func (c *standinChecker) checkBlock(src []byte, b *Block, text []byte) {
+	kind := b.Kind()
+	// C05: accessors
+	switch kind {
+	case ATXHeadingKind:
+		if l := b.HeadingLevel(); l < 1 || l > 6 {
+			c.fail("C05/heading-level", "ATX heading level %d", l)
+		}
+	case SetextHeadingKind:
+		if l := b.HeadingLevel(); l < 1 || l > 2 {
+			c.fail("C05/heading-level", "setext heading level %d", l)
+		}
+	default:
+		if l := b.HeadingLevel(); l != 0 {
+			c.fail("C05/heading-level", "%s has heading level %d", kind, l)
+		}
+	}
+	if kind != ListItemKind || !b.IsOrderedList() {
+		if n := b.ListItemNumber(src); n != -1 {
+			c.fail("C05/item-number", "%s (ordered=%v) has item number %d", kind, b.IsOrderedList(), n)
+		}
+	} else if n := b.ListItemNumber(src); n < 0 || n > 999999999 {
+		c.fail("C05/item-number", "ordered list item has number %d", n)
+	}
+	// C05: grammar of the children; C13: shape of the block's text
+	switch kind {
+	case ListKind:
+		for i := 0; i < b.ChildCount(); i++ {
+			item := b.Child(i).Block()
+			if item.Kind() != ListItemKind {
+				c.fail("C05/list-children", "list child %d is %s", i, standinKindName(b.Child(i)))
+				continue
+			}
+			if item.IsOrderedList() != b.IsOrderedList() || item.IsTightList() != b.IsTightList() {
+				c.fail("C05/list-agree", "list (ordered=%v tight=%v) and item %d (ordered=%v tight=%v) disagree", b.IsOrderedList(), b.IsTightList(), i, item.IsOrderedList(), item.IsTightList())
+			}
+		}
+	case ListItemKind:
+		if b.ChildCount() == 0 || b.Child(0).Block().Kind() != ListMarkerKind {
+			c.fail("C05/item-marker", "list item does not start with a list marker")
+		}
+	case ListMarkerKind:
+		if !standinIsListMarker(text) {
+			c.fail("C13/list-marker", "list marker text %q", text)
+		}
+	case LinkReferenceDefinitionKind:
+		var kinds []InlineKind
+		for i := 0; i < b.ChildCount(); i++ {
+			kinds = append(kinds, b.Child(i).Inline().Kind())
+		}
+		ok := (len(kinds) == 2 || len(kinds) == 3) && kinds[0] == LinkLabelKind && kinds[1] == LinkDestinationKind && (len(kinds) == 2 || kinds[2] == LinkTitleKind)
+		if !ok {
+			c.fail("C05/definition", "link reference definition has children %v", kinds)
+		}
+	case ParagraphKind, ATXHeadingKind, SetextHeadingKind:
+		for i := 0; i < b.ChildCount(); i++ {
+			in := b.Child(i).Inline()
+			if in == nil || !standinPhrasing[in.Kind()] {
+				c.fail("C05/phrasing", "%s holds a %s", kind, standinKindName(b.Child(i)))
+			}
+		}
+	case IndentedCodeBlockKind, FencedCodeBlockKind:
+		for i := 0; i < b.ChildCount(); i++ {
+			in := b.Child(i).Inline()
+			switch {
+			case in == nil:
+				c.fail("C05/code-children", "%s holds a %s", kind, standinKindName(b.Child(i)))
+			case in.Kind() == InfoStringKind:
+				if kind != FencedCodeBlockKind || i != 0 {
+					c.fail("C05/code-children", "info string at position %d of a %s", i, kind)
+				}
+			case in.Kind() != TextKind && in.Kind() != IndentKind && in.Kind() != SoftLineBreakKind:
+				c.fail("C05/code-children", "%s holds a %s", kind, in.Kind())
+			}
+		}
+	case HTMLBlockKind:
+		for i := 0; i < b.ChildCount(); i++ {
+			in := b.Child(i).Inline()
+			if in == nil || (in.Kind() != RawHTMLKind && in.Kind() != IndentKind) {
+				c.fail("C05/html-children", "HTML block holds a %s", standinKindName(b.Child(i)))
+			}
+		}
+	}
+	switch kind {
+	case ATXHeadingKind:
+		if l := b.HeadingLevel(); standinRun(text, '#') != l {
+			c.fail("C13/atx", "ATX heading of level %d has text %q", l, text)
+		}
+	case SetextHeadingKind:
+		t := bytes.TrimRight(text, " \t\r\n")
+		want := byte('=')
+		if b.HeadingLevel() == 2 {
+			want = '-'
+		}
+		if len(t) == 0 || t[len(t)-1] != want {
+			c.fail("C13/setext", "setext heading of level %d has text %q", b.HeadingLevel(), text)
+		}
+	case FencedCodeBlockKind:
+		if len(text) < 3 || (text[0] != '`' && text[0] != '~') || standinRun(text, text[0]) < 3 {
+			c.fail("C13/fence", "fenced code block has text %q", text)
+		}
+	case BlockQuoteKind:
+		if len(text) == 0 || text[0] != '>' {
+			c.fail("C13/quote", "block quote has text %q", text)
+		}
+	}
+}
+
+func (c *standinChecker) checkInline(src []byte, in *Inline, text []byte, inLink bool, refs ReferenceMap) {
+	kind := in.Kind()
+	if kind == UnparsedKind || kind == 0 {
+		c.fail("C05/unparsed", "an unparsed node remains: %q", text)
+	}
+	switch kind {
+	case LinkKind, ImageKind:
+		if kind == LinkKind && inLink {
+			c.fail("C05/link-in-link", "link %q inside a link", text)
+		}
+		// children end in at most [destination][title] or one label
+		n := in.ChildCount()
+		tail := 0
+		for tail < n {
+			k := in.Child(n - 1 - tail).Kind()
+			if k != LinkDestinationKind && k != LinkTitleKind && k != LinkLabelKind {
+				break
+			}
+			tail++
+		}
+		for i := 0; i < n-tail; i++ {
+			k := in.Child(i).Kind()
+			if k == LinkDestinationKind || k == LinkTitleKind || k == LinkLabelKind || !standinPhrasing[k] {
+				c.fail("C05/link-children", "%s has a %s at position %d of %d", kind, k, i, n)
+			}
+		}
+		var kinds []InlineKind
+		for i := n - tail; i < n; i++ {
+			kinds = append(kinds, in.Child(i).Kind())
+		}
+		okTail := tail == 0 ||
+			(tail == 1 && (kinds[0] == LinkDestinationKind || kinds[0] == LinkTitleKind || kinds[0] == LinkLabelKind)) ||
+			(tail == 2 && kinds[0] == LinkDestinationKind && kinds[1] == LinkTitleKind)
+		if !okTail {
+			c.fail("C05/link-children", "%s ends in %v", kind, kinds)
+		}
+		if ref := in.LinkReference(); ref != "" {
+			if in.LinkDestination() != nil || in.LinkTitle() != nil {
+				c.fail("C05/reference-attrs", "reference %s %q has a destination or title node", kind, text)
+			}
+			if _, ok := refs[ref]; !ok {
+				c.fail("C12/ref-in-map", "reference %q of %q is not a key of the reference map", ref, text)
+			}
+		}
+		// C13
+		if kind == LinkKind && (len(text) < 2 || text[0] != '[') {
+			c.fail("C13/link", "link text %q", text)
+		}
+		if kind == ImageKind && (len(text) < 3 || text[0] != '!' || text[1] != '[') {
+			c.fail("C13/link", "image text %q", text)
+		}
+		if len(text) > 0 && text[len(text)-1] != ']' && text[len(text)-1] != ')' {
+			c.fail("C13/link", "%s text %q", kind, text)
+		}
+	case EmphasisKind:
+		if len(text) < 2 || (text[0] != '*' && text[0] != '_') || text[len(text)-1] != text[0] {
+			c.fail("C13/emphasis", "emphasis text %q", text)
+		}
+	case StrongKind:
+		if len(text) < 4 || (text[0] != '*' && text[0] != '_') || text[1] != text[0] || text[len(text)-1] != text[0] || text[len(text)-2] != text[0] {
+			c.fail("C13/emphasis", "strong emphasis text %q", text)
+		}
+	case CodeSpanKind:
+		if a, b := standinRun(text, '`'), standinRunBack(text, '`'); a == 0 || (a != b && a != len(text)) || a == len(text) {
+			c.fail("C13/code-span", "code span text %q", text)
+		}
+	case AutolinkKind, HTMLTagKind:
+		if len(text) < 2 || text[0] != '<' || text[len(text)-1] != '>' {
+			c.fail("C13/angle", "%s text %q", kind, text)
+		}
+	case CharacterReferenceKind:
+		if len(text) < 3 || text[0] != '&' || text[len(text)-1] != ';' {
+			c.fail("C13/charref", "character reference text %q", text)
+		}
+	case HardLineBreakKind:
+		ok := len(text) == 1 && text[0] == '\\'
+		if !ok && len(text) >= 2 && text[0] == ' ' && text[1] == ' ' {
+			ok = true
+			for _, b := range text {
+				if b != ' ' && b != '\r' && b != '\n' {
+					ok = false
+				}
+			}
+		}
+		if !ok {
+			c.fail("C13/hard-break", "hard line break text %q", text)
+		}
+	}
+}
+
+// standinTokens: the fragments the bounded inputs are composed of.
+var standinTokens = []string{
+	"a", "b", "c", "[b\nc]", "[b\n> c]", " ", "  ", "\n", "\r\n", "\t", "*", "**", "_", "__", "`", "``", "[", "]", "![", "(", ")", "(/u)", "[a]", "[a]: /u\n", "[b c]: </v> 't'\n",
+	"<", ">", "<b>", "<a\n", "href='x'>", "</b>", "<!--", "-->", "<https://a.b>", "<x@y.z>", "\\", "&", "&amp;", "&#x41;", ";", "!", "\"t\"", "'", ":", "/u",
+	"> ", "- ", "+ ", "1. ", "12) ", "# ", "## ", "#", "===\n", "---\n", "```\n", "~~~", "    ", "é", " ", "\x00", "<div>\n", "<?x", "?>", "|", ".", "=", "-",
+}
+
+func standinCompose(idx []int) []byte {
+	var sb []byte
+	for _, i := range idx {
+		sb = append(sb, standinTokens[i]...)
+	}
+	return sb
+}
+
+func TestVerifStandin(t *testing.T) {
+	want := map[string]bool{}
+	clauses := os.Getenv("VERIF_STANDIN_CLAUSES")
+	if clauses == "" {
+		clauses = "C01,C02,C03,C05,C12,C13"
+	}
+	for _, c := range strings.Split(clauses, ",") {
+		want[strings.TrimSpace(c)] = true
+	}
+	level := os.Getenv("VERIF_STANDIN_LEVEL")
+	seed, _ := strconv.ParseInt(os.Getenv("VERIF_SEED"), 10, 64)
+	exhaustive, randomN, randomMax, charLen := 3, 1500000, 10, 6
+	if level == "thorough" {
+		exhaustive, randomN, randomMax, charLen = 4, 20000000, 14, 7
+	}
+	if v := os.Getenv("VERIF_STANDIN_RANDOM"); v != "" {
+		randomN, _ = strconv.Atoi(v)
+	}
+	inputs := make(chan []byte, 1024)
+	var mu sync.Mutex
+	first := map[string]standinViolation{}
+	total := 0
+	var wg sync.WaitGroup
+	for w := 0; w < runtime.NumCPU(); w++ {
+		wg.Add(1)
+		go func() {
+			defer wg.Done()
+			c := &standinChecker{want: want}
+			n := 0
+			for in := range inputs {
+				c.out = c.out[:0]
+				func() {
+					defer func() {
+						if r := recover(); r != nil {
+							c.in = in
+							c.fail("C04/panic", "%v", r)
+							c.out = append(c.out, standinViolation{Clause: "C04/panic", Input: string(in), Detail: fmt.Sprint(r)})
+						}
+					}()
+					c.checkDocument(in)
+				}()
+				n++
+				if len(c.out) > 0 {
+					mu.Lock()
+					for _, v := range c.out {
+						if old, ok := first[v.Clause]; !ok || len(v.Input) < len(old.Input) {
+							first[v.Clause] = v
+						}
+					}
+					mu.Unlock()
+				}
+			}
+			mu.Lock()
+			total += n
+			mu.Unlock()
+		}()
+	}
+	// (1) every sequence of at most `exhaustive` tokens
+	nt := len(standinTokens)
+	var rec func(idx []int)
+	rec = func(idx []int) {
+		inputs <- standinCompose(idx)
+		if len(idx) == exhaustive {
+			return
+		}
+		for i := 0; i < nt; i++ {
+			rec(append(idx[:len(idx):len(idx)], i))
+		}
+	}
+	rec(nil)
+	// (2) every string of at most charLen characters over two small alphabets
+	for _, alphabet := range []string{"a *_[](`\n", "a-#> 1.\n\t"} {
+		var recc func(s []byte)
+		recc = func(s []byte) {
+			if len(s) > 0 {
+				inputs <- append([]byte(nil), s...)
+			}
+			if len(s) == charLen {
+				return
+			}
+			for i := 0; i < len(alphabet); i++ {
+				recc(append(s, alphabet[i]))
+			}
+		}
+		recc(nil)
+	}
+	// (3) seeded random longer sequences of tokens
+	rng := rand.New(rand.NewSource(seed + 1))
+	for i := 0; i < randomN; i++ {
+		l := exhaustive + 1 + rng.Intn(randomMax-exhaustive)
+		idx := make([]int, l)
+		for k := range idx {
+			idx[k] = rng.Intn(nt)
+		}
+		inputs <- standinCompose(idx)
+	}
+	close(inputs)
+	wg.Wait()
+	var keys []string
+	for k := range first {
+		keys = append(keys, k)
+	}
+	sort.Strings(keys)
+	enc := json.NewEncoder(os.Stdout)
+	for _, k := range keys {
+		fmt.Print("STANDIN-VIOLATION ")
+		enc.Encode(first[k])
+	}
+	fmt.Printf("STANDIN-SUMMARY {\"inputs\":%d,\"tokens\":%d,\"exhaustive_tokens\":%d,\"char_len\":%d,\"random\":%d,\"random_max_tokens\":%d,\"seed\":%d,\"violations\":%d}\n",
+		total, nt, exhaustive, charLen, randomN, randomMax, seed, len(keys))
+	if len(keys) > 0 {
+		t.Fail()
+	}
+}
